@@ -8,7 +8,7 @@ use blocks::{CachedBlocks, CodeBlock, MemoryLocation};
 use crate::cpu::Registers;
 use crate::decoder::decode;
 use crate::emitter::Emitter;
-use crate::mem::MemoryAreas;
+use crate::mem::{can_dynarec, MemoryAreas};
 
 #[cfg(unix)]
 use linux::ExecutableMemory;
@@ -124,6 +124,11 @@ impl CodeCache {
       // instruction: do not let it run on from the fixed bank into the
       // switchable one. The next block starts at the boundary.
       if index != ip && (index < 0x4000) != (ip < 0x4000) {
+        break;
+      }
+      // Nor may it run into the tail of a bank, where the decoder could need
+      // bytes beyond the slice; the interpreter takes over from there.
+      if index != ip && !can_dynarec(index) {
         break;
       }
       let code_slice = self.get_executable_memory_segment(index, mem);
